@@ -1,1 +1,889 @@
-// tokenizer step harnesses (filled in later)
+// Solver harnesses for single transitions of kiki's tokenizer (engine E3, in-crate).
+//
+// Included by kiki/src/pipeline/tokenize.rs as `mod verif_steps` under the `kiki_verif`
+// feature, so `super::*` names the private `Tokenizer`, `State` and `handle_char*`.
+//
+// Shape of every harness: an arbitrary state satisfying the representation invariant
+// Inv(src, idx, state) over a small symbolic source window, one arbitrary `char`, ONE call
+// of the real `handle_char` (or of the end-of-input flush), then
+//   * the outcome equals the outcome of a reference lexer step written from USER_GUIDE.md
+//     and the property text (independent tables below),
+//   * Inv holds again for idx' = idx + len_utf8(c).
+// Induction over the characters of a source text is a paper argument on top of these
+// discharged steps.  Lexemes longer than the window are outside the claim.
+
+#[cfg(kani)]
+mod proofs {
+    use super::super::*;
+    use crate::data::token::Token;
+
+    // ---------------------------------------------------------------- reference tables
+    pub const K_UNDERSCORE: u8 = 0;
+    pub const K_IDENT: u8 = 1;
+    pub const K_TERMINAL_IDENT: u8 = 2;
+    pub const K_OUTER_ATTRIBUTE: u8 = 3;
+    pub const K_START: u8 = 4;
+    pub const K_STRUCT: u8 = 5;
+    pub const K_ENUM: u8 = 6;
+    pub const K_TERMINAL: u8 = 7;
+    pub const K_COLON: u8 = 8;
+    pub const K_DOUBLE_COLON: u8 = 9;
+    pub const K_COMMA: u8 = 10;
+    pub const K_LPAREN: u8 = 11;
+    pub const K_RPAREN: u8 = 12;
+    pub const K_LCURLY: u8 = 13;
+    pub const K_RCURLY: u8 = 14;
+    pub const K_LANGLE: u8 = 15;
+    pub const K_RANGLE: u8 = 16;
+
+    /// Unicode White_Space, spelled out (independent of std's tables).
+    pub fn ref_is_ws(c: char) -> bool {
+        let u = c as u32;
+        (u >= 0x09 && u <= 0x0D)
+            || u == 0x20
+            || u == 0x85
+            || u == 0xA0
+            || u == 0x1680
+            || (u >= 0x2000 && u <= 0x200A)
+            || u == 0x2028
+            || u == 0x2029
+            || u == 0x202F
+            || u == 0x205F
+            || u == 0x3000
+    }
+    pub fn ref_ident_start(c: char) -> bool {
+        (c >= 'a' && c <= 'z') || (c >= 'A' && c <= 'Z') || c == '_'
+    }
+    pub fn ref_ident_cont(c: char) -> bool {
+        ref_ident_start(c) || (c >= '0' && c <= '9')
+    }
+    pub fn ref_punct(c: char) -> Option<u8> {
+        match c {
+            ',' => Some(K_COMMA),
+            '(' => Some(K_LPAREN),
+            ')' => Some(K_RPAREN),
+            '{' => Some(K_LCURLY),
+            '}' => Some(K_RCURLY),
+            '<' => Some(K_LANGLE),
+            '>' => Some(K_RANGLE),
+            _ => None,
+        }
+    }
+    pub fn bytes_eq(a: &[u8], b: &[u8]) -> bool {
+        if a.len() != b.len() {
+            return false;
+        }
+        let mut i = 0;
+        while i < a.len() {
+            if a[i] != b[i] {
+                return false;
+            }
+            i += 1;
+        }
+        true
+    }
+    /// Reserved word -> token kind.
+    pub fn ref_reserved(w: &[u8]) -> Option<u8> {
+        if bytes_eq(w, b"_") {
+            Some(K_UNDERSCORE)
+        } else if bytes_eq(w, b"start") {
+            Some(K_START)
+        } else if bytes_eq(w, b"struct") {
+            Some(K_STRUCT)
+        } else if bytes_eq(w, b"enum") {
+            Some(K_ENUM)
+        } else if bytes_eq(w, b"terminal") {
+            Some(K_TERMINAL)
+        } else {
+            None
+        }
+    }
+
+    // ---------------------------------------------------------------- reference state / outcome
+    #[derive(Clone, Copy, PartialEq, Eq)]
+    pub enum RState {
+        Main,
+        Slash(usize),
+        Comment,
+        Ident(usize, usize),
+        Dollar(usize),
+        TerminalIdent(usize, usize),
+        Colon(usize),
+        Pound(usize),
+        Attr(usize, usize, usize), // start, open brackets, end
+    }
+    #[derive(Clone, Copy, PartialEq, Eq)]
+    pub struct RTok {
+        pub kind: u8,
+        pub pos: usize,   // byte position the token reports
+        pub text_s: usize, // payload text = src[text_s..text_e] (for Ident / TerminalIdent / OuterAttribute)
+        pub text_e: usize,
+    }
+    pub const NO_TOK: RTok = RTok { kind: 255, pos: 0, text_s: 0, text_e: 0 };
+    #[derive(Clone, Copy, PartialEq, Eq)]
+    pub enum ROut {
+        Go(RState),
+        Err(usize, Option<char>),
+    }
+    pub struct RStep {
+        pub toks: [RTok; 2],
+        pub ntok: usize,
+        pub out: ROut,
+    }
+
+    /// Reference: what a character does when no lexeme is pending.
+    pub fn ref_main(c: char, idx: usize, step: &mut RStep) {
+        step.out = if ref_is_ws(c) {
+            ROut::Go(RState::Main)
+        } else if c == '/' {
+            ROut::Go(RState::Slash(idx))
+        } else if ref_ident_start(c) {
+            ROut::Go(RState::Ident(idx, idx + 1))
+        } else if c == '$' {
+            ROut::Go(RState::Dollar(idx))
+        } else if c == ':' {
+            ROut::Go(RState::Colon(idx))
+        } else if c == '#' {
+            ROut::Go(RState::Pound(idx))
+        } else if let Some(k) = ref_punct(c) {
+            step.toks[step.ntok] = RTok { kind: k, pos: idx, text_s: 0, text_e: 0 };
+            step.ntok += 1;
+            ROut::Go(RState::Main)
+        } else {
+            ROut::Err(idx, Some(c))
+        };
+    }
+
+    /// Reference: flush of a pending word lexeme src[s..e] (identifier or reserved word).
+    pub fn ref_flush_word(src: &[u8], s: usize, e: usize, step: &mut RStep) {
+        let w = &src[s..e];
+        let t = match ref_reserved(w) {
+            Some(k) => RTok { kind: k, pos: s, text_s: 0, text_e: 0 },
+            None => RTok { kind: K_IDENT, pos: s, text_s: s, text_e: e },
+        };
+        step.toks[step.ntok] = t;
+        step.ntok += 1;
+    }
+
+    // ---------------------------------------------------------------- comparison with the real thing
+    pub fn tok_matches(t: &Token, r: &RTok, src: &[u8]) -> bool {
+        match t {
+            Token::Underscore(p) => r.kind == K_UNDERSCORE && p.0 == r.pos,
+            Token::Ident(i) => {
+                r.kind == K_IDENT && i.position.0 == r.pos && bytes_eq(i.name.as_bytes(), &src[r.text_s..r.text_e])
+            }
+            Token::TerminalIdent(i) => {
+                r.kind == K_TERMINAL_IDENT
+                    && i.dollarless_position.0 == r.pos
+                    && bytes_eq(i.name.raw().as_bytes(), &src[r.text_s..r.text_e])
+            }
+            Token::OuterAttribute(a) => {
+                r.kind == K_OUTER_ATTRIBUTE && a.position.0 == r.pos && bytes_eq(a.src.as_bytes(), &src[r.text_s..r.text_e])
+            }
+            Token::StartKw(p) => r.kind == K_START && p.0 == r.pos,
+            Token::StructKw(p) => r.kind == K_STRUCT && p.0 == r.pos,
+            Token::EnumKw(p) => r.kind == K_ENUM && p.0 == r.pos,
+            Token::TerminalKw(p) => r.kind == K_TERMINAL && p.0 == r.pos,
+            Token::Colon(p) => r.kind == K_COLON && p.0 == r.pos,
+            Token::DoubleColon(p) => r.kind == K_DOUBLE_COLON && p.0 == r.pos,
+            Token::Comma(p) => r.kind == K_COMMA && p.0 == r.pos,
+            Token::LParen(p) => r.kind == K_LPAREN && p.0 == r.pos,
+            Token::RParen(p) => r.kind == K_RPAREN && p.0 == r.pos,
+            Token::LCurly(p) => r.kind == K_LCURLY && p.0 == r.pos,
+            Token::RCurly(p) => r.kind == K_RCURLY && p.0 == r.pos,
+            Token::LAngle(p) => r.kind == K_LANGLE && p.0 == r.pos,
+            Token::RAngle(p) => r.kind == K_RANGLE && p.0 == r.pos,
+        }
+    }
+
+    pub fn state_matches(s: &State, r: &RState) -> bool {
+        match (s, r) {
+            (State::Main, RState::Main) => true,
+            (State::Slash(a), RState::Slash(b)) => a.0 == *b,
+            (State::SingleLineComment, RState::Comment) => true,
+            (State::Ident(a, b), RState::Ident(c, d)) => a.0 == *c && b.0 == *d,
+            (State::Dollar(a), RState::Dollar(b)) => a.0 == *b,
+            (State::TerminalIdent(a, b), RState::TerminalIdent(c, d)) => a.0 == *c && b.0 == *d,
+            (State::Colon(a), RState::Colon(b)) => a.0 == *b,
+            (State::Pound(a), RState::Pound(b)) => a.0 == *b,
+            (State::OuterAttribute(a, n, b), RState::Attr(c, m, d)) => a.0 == *c && n.0.get() == *m && b.0 == *d,
+            _ => false,
+        }
+    }
+
+    /// Asserts that the real step result equals the reference step.
+    pub fn compare(t: &Tokenizer, r: &Result<(), KikiErr>, step: &RStep, src: &[u8]) {
+        match (&step.out, r) {
+            (ROut::Go(rs), Ok(())) => {
+                assert!(state_matches(&t.state, rs), "C08 next state differs from the documented lexical rules");
+                assert!(t.out.len() == step.ntok, "C08 number of tokens emitted differs");
+                let mut i = 0;
+                while i < step.ntok {
+                    assert!(tok_matches(&t.out[i], &step.toks[i], src), "C08 emitted token (kind, position or text) differs");
+                    i += 1;
+                }
+            }
+            (ROut::Err(i, c), Err(KikiErr::Lex(bi, bc))) => {
+                assert!(bi.0 == *i, "C08 lexical error reports the wrong byte index");
+                assert!(*bc == *c, "C08 lexical error reports the wrong character");
+            }
+            (ROut::Go(_), Err(_)) => assert!(false, "C08 lexical error on text the rules accept"),
+            (ROut::Err(_, _), Ok(())) => assert!(false, "C08 text the rules reject was accepted"),
+            (ROut::Err(_, _), Err(_)) => assert!(false, "C08 error is not a lexical error"),
+        }
+    }
+
+    // ---------------------------------------------------------------- window helpers
+    pub const W: usize = 10;
+
+    /// ASCII window (valid UTF-8 by construction).
+    pub fn ascii_window() -> [u8; W] {
+        let b: [u8; W] = kani::any();
+        let mut i = 0;
+        while i < W {
+            kani::assume(b[i] < 128);
+            i += 1;
+        }
+        b
+    }
+    pub fn as_str(b: &[u8; W]) -> &str {
+        unsafe { core::str::from_utf8_unchecked(b) }
+    }
+    pub fn is_word_lexeme(b: &[u8; W], s: usize, e: usize) -> bool {
+        if !(s < e && e <= W) {
+            return false;
+        }
+        let mut i = 0;
+        let mut ok = true;
+        while i < W {
+            if i == s {
+                ok &= ref_ident_start(b[i] as char);
+            } else if i > s && i < e {
+                ok &= ref_ident_cont(b[i] as char);
+            }
+            i += 1;
+        }
+        ok
+    }
+
+    // ---------------------------------------------------------------- harnesses: states without a lexeme
+    #[kani::proof]
+    #[kani::unwind(4)]
+    fn step_main() {
+        let src = "";
+        let idx: usize = kani::any();
+        kani::assume(idx < 1000);
+        let c: char = kani::any();
+        let mut t = Tokenizer { src, out: Vec::with_capacity(2), state: State::Main };
+        let r = t.handle_char(c, ByteIndex(idx));
+        let mut step = RStep { toks: [NO_TOK; 2], ntok: 0, out: ROut::Go(RState::Main) };
+        ref_main(c, idx, &mut step);
+        compare(&t, &r, &step, &[]);
+        // C16: whitespace in Main produces nothing
+        if ref_is_ws(c) {
+            assert!(r.is_ok() && t.out.len() == 0 && matches!(t.state, State::Main), "C16 whitespace is not skipped");
+        }
+        kani::cover!(t.out.len() == 1);
+        kani::cover!(r.is_err());
+        kani::cover!(matches!(t.state, State::Pound(_)));
+        kani::cover!(ref_is_ws(c) && (c as u32) > 0x2000);
+        core::mem::forget(t);
+        core::mem::forget(r);
+    }
+
+    fn lexemeless_step(which: u8) {
+        let src = "";
+        let s: usize = kani::any();
+        kani::assume(s < 1000);
+        let c: char = kani::any();
+        let idx = s + 1;
+        let (state, rstate) = match which {
+            0 => (State::Slash(ByteIndex(s)), RState::Slash(s)),
+            1 => (State::SingleLineComment, RState::Comment),
+            2 => (State::Dollar(ByteIndex(s)), RState::Dollar(s)),
+            _ => (State::Pound(ByteIndex(s)), RState::Pound(s)),
+        };
+        let mut t = Tokenizer { src, out: Vec::with_capacity(2), state };
+        let r = t.handle_char(c, ByteIndex(idx));
+        let mut step = RStep { toks: [NO_TOK; 2], ntok: 0, out: ROut::Go(RState::Main) };
+        step.out = match rstate {
+            RState::Slash(s) => {
+                if c == '/' {
+                    ROut::Go(RState::Comment)
+                } else {
+                    ROut::Err(s, Some('/'))
+                }
+            }
+            RState::Comment => {
+                if c == '\n' {
+                    ROut::Go(RState::Main)
+                } else {
+                    ROut::Go(RState::Comment)
+                }
+            }
+            RState::Dollar(s) => {
+                if ref_ident_start(c) {
+                    ROut::Go(RState::TerminalIdent(s, s + 2))
+                } else {
+                    ROut::Err(s, Some('$'))
+                }
+            }
+            _ => {
+                if c == '[' {
+                    ROut::Go(RState::Attr(s, 1, idx + 1))
+                } else {
+                    ROut::Err(s, Some('#'))
+                }
+            }
+        };
+        compare(&t, &r, &step, &[]);
+        // C16: a comment swallows every character up to the line feed and emits nothing
+        if which == 1 {
+            assert!(r.is_ok() && t.out.len() == 0, "C16 comment content produced a token or an error");
+        }
+        kani::cover!(r.is_ok());
+        kani::cover!(which != 1 || matches!(t.state, State::Main));
+        kani::cover!(which == 1 || r.is_err());
+        core::mem::forget(t);
+        core::mem::forget(r);
+    }
+    #[kani::proof]
+    #[kani::unwind(4)]
+    fn step_slash() {
+        lexemeless_step(0);
+    }
+    #[kani::proof]
+    #[kani::unwind(4)]
+    fn step_comment() {
+        lexemeless_step(1);
+    }
+    #[kani::proof]
+    #[kani::unwind(4)]
+    fn step_dollar() {
+        lexemeless_step(2);
+    }
+    #[kani::proof]
+    #[kani::unwind(4)]
+    fn step_pound() {
+        lexemeless_step(3);
+    }
+
+    #[kani::proof]
+    #[kani::unwind(4)]
+    fn step_colon() {
+        let src = "";
+        let s: usize = kani::any();
+        kani::assume(s < 1000);
+        let c: char = kani::any();
+        let idx = s + 1;
+        let mut t = Tokenizer { src, out: Vec::with_capacity(2), state: State::Colon(ByteIndex(s)) };
+        let r = t.handle_char(c, ByteIndex(idx));
+        let mut step = RStep { toks: [NO_TOK; 2], ntok: 0, out: ROut::Go(RState::Main) };
+        if c == ':' {
+            // maximal munch
+            step.toks[0] = RTok { kind: K_DOUBLE_COLON, pos: s, text_s: 0, text_e: 0 };
+            step.ntok = 1;
+        } else {
+            step.toks[0] = RTok { kind: K_COLON, pos: s, text_s: 0, text_e: 0 };
+            step.ntok = 1;
+            ref_main(c, idx, &mut step);
+        }
+        compare(&t, &r, &step, &[]);
+        kani::cover!(t.out.len() == 2);
+        kani::cover!(c == ':');
+        kani::cover!(r.is_err());
+        core::mem::forget(t);
+        core::mem::forget(r);
+    }
+
+    // ---------------------------------------------------------------- harnesses: word lexemes
+    #[kani::proof]
+    #[kani::unwind(12)]
+    fn step_ident() {
+        let b = ascii_window();
+        let s: usize = kani::any();
+        let e: usize = kani::any();
+        kani::assume(s <= 1 && e < W);
+        kani::assume(is_word_lexeme(&b, s, e));
+        let c: char = kani::any();
+        let idx = e; // Inv: the end marker is the byte index of the next character
+        let mut t = Tokenizer { src: as_str(&b), out: Vec::with_capacity(2), state: State::Ident(ByteIndex(s), ByteIndex(e)) };
+        let r = t.handle_char(c, ByteIndex(idx));
+        let mut step = RStep { toks: [NO_TOK; 2], ntok: 0, out: ROut::Go(RState::Main) };
+        if ref_ident_cont(c) {
+            step.out = ROut::Go(RState::Ident(s, e + 1));
+        } else {
+            ref_flush_word(&b, s, e, &mut step);
+            ref_main(c, idx, &mut step);
+        }
+        compare(&t, &r, &step, &b);
+        // C16: whitespace and '/' flush exactly the pending token
+        if ref_is_ws(c) {
+            assert!(r.is_ok() && t.out.len() == 1 && matches!(t.state, State::Main), "C16 whitespace after a word");
+        }
+        kani::cover!(t.out.len() == 2);
+        kani::cover!(t.out.len() == 1 && matches!(t.out[0], Token::TerminalKw(_)));
+        kani::cover!(t.out.len() == 1 && matches!(t.out[0], Token::Underscore(_)));
+        kani::cover!(t.out.len() == 1 && matches!(t.out[0], Token::Ident(_)) && e - s == 8);
+        kani::cover!(r.is_err());
+        core::mem::forget(t);
+        core::mem::forget(r);
+    }
+
+    #[kani::proof]
+    #[kani::unwind(12)]
+    fn flush_ident_at_end_of_input() {
+        let b = ascii_window();
+        let s: usize = kani::any();
+        let e: usize = kani::any();
+        kani::assume(s <= 1 && e <= W);
+        kani::assume(is_word_lexeme(&b, s, e));
+        // end of input: the source ends where the lexeme ends
+        let mut t = Tokenizer { src: &as_str(&b)[..e], out: Vec::with_capacity(2), state: State::Ident(ByteIndex(s), ByteIndex(e)) };
+        let r = t.push_pending_token_and_reset_state(None, ByteIndex(e));
+        let mut step = RStep { toks: [NO_TOK; 2], ntok: 0, out: ROut::Go(RState::Main) };
+        ref_flush_word(&b, s, e, &mut step);
+        compare(&t, &r, &step, &b);
+        kani::cover!(matches!(t.out[0], Token::Ident(_)));
+        kani::cover!(matches!(t.out[0], Token::StructKw(_)));
+        core::mem::forget(t);
+        core::mem::forget(r);
+    }
+
+    // ---------------------------------------------------------------- harnesses: `$` terminal identifiers
+    /// Stub for DollarlessTerminalName::remove_dollars on a `$`-prefixed identifier lexeme (the only
+    /// kind of argument the tokenizer passes): drop the first byte.  Justified separately by
+    /// kani_units::dollar::remove_dollars_is_strip_first (real function, all lexemes up to 6 bytes).
+    pub fn stub_remove_dollars(name: &str) -> crate::DollarlessTerminalName {
+        let s: String = name[1..].to_string();
+        unsafe { core::mem::transmute::<String, crate::DollarlessTerminalName>(s) }
+    }
+
+    pub fn is_terminal_lexeme(b: &[u8; W], s: usize, e: usize) -> bool {
+        s + 1 < e && e <= W && b[s] == b'$' && is_word_lexeme(b, s + 1, e)
+    }
+
+    pub fn ref_flush_terminal(src: &[u8], s: usize, e: usize, at: usize, c: Option<char>, step: &mut RStep) -> bool {
+        let name = &src[s + 1..e];
+        if ref_reserved(name).is_some() {
+            // "for a reserved word after `$`, the position just past it" and the character found there
+            step.out = ROut::Err(at, c);
+            false
+        } else {
+            step.toks[step.ntok] = RTok { kind: K_TERMINAL_IDENT, pos: s + 1, text_s: s + 1, text_e: e };
+            step.ntok += 1;
+            true
+        }
+    }
+
+    // The flush of a `$` lexeme has two exits (reserved word -> error, else token).  CBMC merges them
+    // at the return, which makes the tokenizer state symbolic in the re-dispatch `self.handle_char(c)`
+    // and the unrolled recursion explode (no verdict in 15 min, even for concretely spelled names).
+    // The recursion is therefore cut compositionally: in this harness the *recursive call* is replaced
+    // by a recorder which checks that the state at that moment is Main and remembers (c, idx); what
+    // `handle_char` does from Main with any (c, idx) is decided by `step_main`.  Everything else in
+    // `handle_char_given_state_is_terminal_ident` and in the flush runs for real.
+    static mut REDISPATCH_COUNT: u32 = 0;
+    static mut REDISPATCH_C: u32 = 0;
+    static mut REDISPATCH_IDX: usize = 0;
+    static mut REDISPATCH_FROM_MAIN: bool = false;
+    pub fn recorder_handle_char<'a>(t: &mut Tokenizer<'a>, current: char, current_index: ByteIndex) -> Result<(), KikiErr>
+    where
+        'a: 'a,
+    {
+        unsafe {
+            REDISPATCH_COUNT += 1;
+            REDISPATCH_C = current as u32;
+            REDISPATCH_IDX = current_index.0;
+            REDISPATCH_FROM_MAIN = matches!(t.state, State::Main);
+        }
+        Ok(())
+    }
+
+    #[kani::proof]
+    #[kani::stub(crate::data::DollarlessTerminalName::remove_dollars, stub_remove_dollars)]
+    #[kani::stub(crate::pipeline::tokenize::Tokenizer::handle_char, recorder_handle_char)]
+    #[kani::unwind(12)]
+    fn step_terminal_ident() {
+        let b = ascii_window();
+        let s: usize = kani::any();
+        let e: usize = kani::any();
+        kani::assume(s <= 1 && e < W);
+        kani::assume(is_terminal_lexeme(&b, s, e));
+        let c: char = kani::any();
+        let idx = e;
+        let mut t = Tokenizer { src: as_str(&b), out: Vec::with_capacity(2), state: State::TerminalIdent(ByteIndex(s), ByteIndex(e)) };
+        let r = t.handle_char_given_state_is_terminal_ident(c, ByteIndex(idx), ByteIndex(s), ByteIndex(e));
+        let mut step = RStep { toks: [NO_TOK; 2], ntok: 0, out: ROut::Go(RState::Main) };
+        let mut expect_redispatch = false;
+        if ref_ident_cont(c) {
+            step.out = ROut::Go(RState::TerminalIdent(s, e + 1));
+        } else if ref_flush_terminal(&b, s, e, idx, Some(c), &mut step) {
+            expect_redispatch = true;
+        }
+        compare(&t, &r, &step, &b);
+        unsafe {
+            if expect_redispatch {
+                assert!(REDISPATCH_COUNT == 1, "C08 pending terminal name flushed but the character is not treated afresh");
+                assert!(REDISPATCH_C == c as u32 && REDISPATCH_IDX == idx, "C08 re-dispatch with another character or index");
+                assert!(REDISPATCH_FROM_MAIN, "C08 re-dispatch while a lexeme is still pending");
+            } else {
+                assert!(REDISPATCH_COUNT == 0, "C08 character consumed twice");
+            }
+        }
+        kani::cover!(expect_redispatch && e - s == 9);
+        kani::cover!(r.is_err() && e - s == 9 && c == ' ');
+        kani::cover!(r.is_err() && e - s == 2);
+        kani::cover!(matches!(t.state, State::TerminalIdent(_, _)));
+        core::mem::forget(t);
+        core::mem::forget(r);
+    }
+
+    // the dispatcher arm for TerminalIdent (real handle_char, concrete continuing character)
+    #[kani::proof]
+    #[kani::unwind(12)]
+    fn dispatch_terminal_ident() {
+        let b = ascii_window();
+        let s: usize = kani::any();
+        let e: usize = kani::any();
+        kani::assume(s <= 1 && e < W);
+        kani::assume(is_terminal_lexeme(&b, s, e));
+        let mut t = Tokenizer { src: as_str(&b), out: Vec::with_capacity(2), state: State::TerminalIdent(ByteIndex(s), ByteIndex(e)) };
+        let r = t.handle_char('q', ByteIndex(e));
+        assert!(r.is_ok() && t.out.len() == 0);
+        assert!(state_matches(&t.state, &RState::TerminalIdent(s, e + 1)), "C08 dispatch of a terminal-name state");
+        kani::cover!(e - s == 5);
+        core::mem::forget(t);
+        core::mem::forget(r);
+    }
+
+    #[kani::proof]
+    #[kani::stub(crate::data::DollarlessTerminalName::remove_dollars, stub_remove_dollars)]
+    #[kani::unwind(12)]
+    fn flush_terminal_ident_at_end_of_input() {
+        let b = ascii_window();
+        let s: usize = kani::any();
+        let e: usize = kani::any();
+        kani::assume(s <= 1 && e <= W);
+        kani::assume(is_terminal_lexeme(&b, s, e));
+        let mut t = Tokenizer { src: &as_str(&b)[..e], out: Vec::with_capacity(2), state: State::TerminalIdent(ByteIndex(s), ByteIndex(e)) };
+        let r = t.push_pending_token_and_reset_state(None, ByteIndex(e));
+        let mut step = RStep { toks: [NO_TOK; 2], ntok: 0, out: ROut::Go(RState::Main) };
+        ref_flush_terminal(&b, s, e, e, None, &mut step);
+        compare(&t, &r, &step, &b);
+        kani::cover!(r.is_ok());
+        kani::cover!(r.is_err());
+        core::mem::forget(t);
+        core::mem::forget(r);
+    }
+
+    // end-of-input flush of the states without a lexeme
+    #[kani::proof]
+    #[kani::unwind(4)]
+    fn flush_lexemeless_at_end_of_input() {
+        let s: usize = kani::any();
+        kani::assume(s < 1000);
+        let which: u8 = kani::any();
+        kani::assume(which < 6);
+        let state = match which {
+            0 => State::Main,
+            1 => State::SingleLineComment,
+            2 => State::Slash(ByteIndex(s)),
+            3 => State::Dollar(ByteIndex(s)),
+            4 => State::Pound(ByteIndex(s)),
+            _ => State::Colon(ByteIndex(s)),
+        };
+        let mut t = Tokenizer { src: "", out: Vec::with_capacity(2), state };
+        let r = t.push_pending_token_and_reset_state(None, ByteIndex(s + 1));
+        let mut step = RStep { toks: [NO_TOK; 2], ntok: 0, out: ROut::Go(RState::Main) };
+        match which {
+            0 | 1 => {}
+            2 => step.out = ROut::Err(s, Some('/')),
+            3 => step.out = ROut::Err(s, Some('$')),
+            4 => step.out = ROut::Err(s, Some('#')),
+            _ => {
+                step.toks[0] = RTok { kind: K_COLON, pos: s, text_s: 0, text_e: 0 };
+                step.ntok = 1;
+            }
+        }
+        compare(&t, &r, &step, &[]);
+        kani::cover!(which == 5 && r.is_ok());
+        kani::cover!(which == 1 && r.is_ok());
+        kani::cover!(which == 4 && r.is_err());
+        core::mem::forget(t);
+        core::mem::forget(r);
+    }
+
+    // ---------------------------------------------------------------- harnesses: `#[...]` attributes
+    pub fn is_open(c: char) -> bool {
+        c == '(' || c == '[' || c == '{'
+    }
+    pub fn is_close(c: char) -> bool {
+        c == ')' || c == ']' || c == '}'
+    }
+
+    /// One character inside an attribute that does not end it.  The source is not read on these paths;
+    /// Inv: end == idx.  Reference: extent by bracket counting (all kinds lumped), any other character
+    /// except line feed belongs to the attribute and advances the end by ITS encoded length.
+    #[kani::proof]
+    #[kani::unwind(4)]
+    fn step_attribute_inner() {
+        let s: usize = kani::any();
+        let e: usize = kani::any();
+        let n: usize = kani::any();
+        kani::assume(s < 1000 && e >= s + 2 && e < 2000 && n >= 1 && n < usize::MAX);
+        let c: char = kani::any();
+        kani::assume(!(is_close(c) && n == 1));
+        let idx = e;
+        let count = LeftBracketCount(NonZeroUsize::new(n).unwrap());
+        let mut t = Tokenizer { src: "", out: Vec::with_capacity(2), state: State::OuterAttribute(ByteIndex(s), count, ByteIndex(e)) };
+        let r = t.handle_char(c, ByteIndex(idx));
+        let mut step = RStep { toks: [NO_TOK; 2], ntok: 0, out: ROut::Go(RState::Main) };
+        let next = idx + c.len_utf8();
+        step.out = if is_open(c) {
+            ROut::Go(RState::Attr(s, n + 1, next))
+        } else if is_close(c) {
+            ROut::Go(RState::Attr(s, n - 1, next))
+        } else if c == '\n' {
+            ROut::Err(idx, Some('\n'))
+        } else {
+            ROut::Go(RState::Attr(s, n, next))
+        };
+        compare(&t, &r, &step, &[]);
+        kani::cover!(is_open(c));
+        kani::cover!(is_close(c));
+        kani::cover!(c.len_utf8() == 3 && r.is_ok());
+        kani::cover!(r.is_err());
+        core::mem::forget(t);
+        core::mem::forget(r);
+    }
+
+    pub const AW: usize = 8;
+
+    /// Reference bracket matcher over src[from..to): Ok, or the absolute index and character of the first
+    /// closer that does not match the innermost open bracket (or has none to match).
+    pub fn ref_match_brackets(src: &str, from: usize, to: usize) -> Option<(usize, char)> {
+        let mut stack = [0u8; AW];
+        let mut sp = 0;
+        let b = src.as_bytes();
+        let mut i = from;
+        while i < to {
+            let x = b[i];
+            if x == b'(' || x == b'[' || x == b'{' {
+                stack[sp] = x;
+                sp += 1;
+            } else if x == b')' || x == b']' || x == b'}' {
+                if sp == 0 {
+                    return Some((i, x as char));
+                }
+                sp -= 1;
+                let o = stack[sp];
+                let ok = (o == b'(' && x == b')') || (o == b'[' && x == b']') || (o == b'{' && x == b'}');
+                if !ok {
+                    return Some((i, x as char));
+                }
+            }
+            i += 1;
+        }
+        None
+    }
+
+    /// Inv for a pending attribute over src: `#[` at s, e on a char boundary, no line feed inside,
+    /// count == 1 + opens - closes in src[s+2..e) and the running count never dropped to 0.
+    pub fn attr_inv(src: &str, s: usize, n: usize, e: usize) -> bool {
+        let b = src.as_bytes();
+        if !(s + 2 <= e && e <= b.len() && src.is_char_boundary(e)) {
+            return false;
+        }
+        if b[s] != b'#' || b[s + 1] != b'[' {
+            return false;
+        }
+        let mut cnt: usize = 1;
+        let mut ok = true;
+        let mut i = s + 2;
+        while i < e {
+            let x = b[i];
+            if x == b'\n' {
+                ok = false;
+            }
+            if x == b'(' || x == b'[' || x == b'{' {
+                cnt += 1;
+            } else if x == b')' || x == b']' || x == b'}' {
+                if cnt <= 1 {
+                    ok = false;
+                } else {
+                    cnt -= 1;
+                }
+            }
+            i += 1;
+        }
+        ok && cnt == n
+    }
+
+    // The step that ENDS an attribute runs `finish_outer_attribute`, whose `Vec<char>` bracket stack and
+    // `char_indices` decoding over symbolic bytes exhaust memory in CBMC (65 GB at 3 symbolic content
+    // bytes; measured).  Symbolic attribute *content* at the closing step is therefore outside reach.
+    // What is decided here: concrete bracket skeletons (the control flow of the stack is then concrete),
+    // with the attribute placed after `lead` arbitrary ASCII bytes and followed by arbitrary ASCII, so
+    // that all index arithmetic (absolute error index, slice bounds, token position) is exercised at a
+    // non-zero offset.  Multi-byte content is concrete UTF-8.
+    pub const AWIN: usize = 20;
+    pub fn attr_window(lead: usize, content: &[u8], tail: usize) -> ([u8; AWIN], usize, usize) {
+        let mut b = [b' '; AWIN];
+        let mut p = 0;
+        let mut i = 0;
+        while i < lead {
+            let x: u8 = kani::any();
+            kani::assume(x < 128);
+            b[p] = x;
+            p += 1;
+            i += 1;
+        }
+        b[p] = b'#';
+        b[p + 1] = b'[';
+        p += 2;
+        let mut k = 0;
+        while k < content.len() {
+            b[p] = content[k];
+            p += 1;
+            k += 1;
+        }
+        let content_end = p;
+        let mut j = 0;
+        while j < tail {
+            let x: u8 = kani::any();
+            kani::assume(x < 128);
+            b[p] = x;
+            p += 1;
+            j += 1;
+        }
+        (b, p, content_end)
+    }
+
+    /// `content` includes the final closing bracket.  Calls the real `finish_outer_attribute` with the
+    /// arguments the closing step passes (decided by `step_attribute_close_dispatch`).
+    fn attribute_finish(lead: usize, content: &'static [u8]) {
+        let (b, len, after) = attr_window(lead, content, 0);
+        let src = unsafe { core::str::from_utf8_unchecked(&b[..len]) };
+        let s = lead;
+        let e = after - 1;
+        assert!(attr_inv(src, s, 1, e));
+        assert!(is_close(b[e] as char));
+        let count = LeftBracketCount(NonZeroUsize::new(1).unwrap());
+        let mut t = Tokenizer { src, out: Vec::with_capacity(2), state: State::OuterAttribute(ByteIndex(s), count, ByteIndex(e)) };
+        let r = t.finish_outer_attribute(ByteIndex(s), ByteIndex(e + 1));
+        let mut step = RStep { toks: [NO_TOK; 2], ntok: 0, out: ROut::Go(RState::Main) };
+        match ref_match_brackets(src, s + 1, e + 1) {
+            Some((i, ch)) => step.out = ROut::Err(i, Some(ch)),
+            None => {
+                // C12: the attribute text is exactly src[s..e+1], from `#` to the closing bracket
+                step.toks[0] = RTok { kind: K_OUTER_ATTRIBUTE, pos: s, text_s: s, text_e: e + 1 };
+                step.ntok = 1;
+            }
+        }
+        compare(&t, &r, &step, &b);
+        kani::cover!(true);
+        core::mem::forget(t);
+        core::mem::forget(r);
+    }
+    macro_rules! attribute_finish_harness {
+        ($name:ident, $lead:expr, $content:expr) => {
+            #[kani::proof]
+            #[kani::unwind(22)]
+            fn $name() {
+                attribute_finish($lead, $content);
+            }
+        };
+    }
+    attribute_finish_harness!(finish_attribute_empty, 0, b"]");
+    attribute_finish_harness!(finish_attribute_empty_lead2, 2, b"]");
+    attribute_finish_harness!(finish_attribute_derive, 1, b"derive(A)]");
+    attribute_finish_harness!(finish_attribute_nested, 1, b"a({[]},())]");
+    attribute_finish_harness!(finish_attribute_mismatch, 1, b"a(])");
+    attribute_finish_harness!(finish_attribute_mismatch_curly, 2, b"{x)]");
+    attribute_finish_harness!(finish_attribute_wrong_final, 1, b"ab}");
+    attribute_finish_harness!(finish_attribute_multibyte, 1, "d=\u{e9}\u{4e2d}\u{1f600}]".as_bytes());
+
+    static mut FINISH_COUNT: u32 = 0;
+    static mut FINISH_START: usize = 0;
+    static mut FINISH_END: usize = 0;
+    pub fn recorder_finish<'a>(_t: &mut Tokenizer<'a>, start: ByteIndex, end: ByteIndex) -> Result<(), KikiErr>
+    where
+        'a: 'a,
+    {
+        unsafe {
+            FINISH_COUNT += 1;
+            FINISH_START = start.0;
+            FINISH_END = end.0;
+        }
+        Ok(())
+    }
+
+    /// A closing bracket while exactly one bracket is open hands src[start .. idx + 1) to the finisher.
+    #[kani::proof]
+    #[kani::stub(crate::pipeline::tokenize::Tokenizer::finish_outer_attribute, recorder_finish)]
+    #[kani::unwind(4)]
+    fn step_attribute_close_dispatch() {
+        let s: usize = kani::any();
+        let e: usize = kani::any();
+        kani::assume(s < 1000 && e >= s + 2 && e < 2000);
+        let c: char = kani::any();
+        kani::assume(is_close(c));
+        let count = LeftBracketCount(NonZeroUsize::new(1).unwrap());
+        let mut t = Tokenizer { src: "", out: Vec::with_capacity(2), state: State::OuterAttribute(ByteIndex(s), count, ByteIndex(e)) };
+        let r = t.handle_char(c, ByteIndex(e));
+        unsafe {
+            assert!(r.is_ok() && FINISH_COUNT == 1, "C08 closing bracket does not end the attribute");
+            assert!(FINISH_START == s && FINISH_END == e + 1, "C12 attribute extent handed to the finisher is not `#` .. closing bracket");
+        }
+        kani::cover!(c == '}');
+        core::mem::forget(t);
+        core::mem::forget(r);
+    }
+
+    /// End of input while an attribute is still open: USER_GUIDE ("expected `)` but got end of input")
+    /// makes this unbalanced, hence not a token: lexical error at the end of the source.
+    fn attribute_eof_flush(lead: usize, content: &'static [u8], n: usize) {
+        let (b, len, e) = attr_window(lead, content, 0);
+        let src = unsafe { core::str::from_utf8_unchecked(&b[..len]) };
+        let s = lead;
+        assert!(attr_inv(src, s, n, e));
+        let count = LeftBracketCount(NonZeroUsize::new(n).unwrap());
+        let mut t = Tokenizer { src, out: Vec::with_capacity(2), state: State::OuterAttribute(ByteIndex(s), count, ByteIndex(e)) };
+        let r = t.push_pending_token_and_reset_state(None, ByteIndex(len));
+        let step = RStep { toks: [NO_TOK; 2], ntok: 0, out: ROut::Err(len, None) };
+        compare(&t, &r, &step, &b);
+        kani::cover!(true);
+        core::mem::forget(t);
+        core::mem::forget(r);
+    }
+    macro_rules! attribute_eof_harness {
+        ($name:ident, $lead:expr, $content:expr, $n:expr) => {
+            #[kani::proof]
+            #[kani::unwind(22)]
+            fn $name() {
+                attribute_eof_flush($lead, $content, $n);
+            }
+        };
+    }
+    attribute_eof_harness!(flush_attribute_at_end_of_input_bare, 1, b"", 1);
+    attribute_eof_harness!(flush_attribute_at_end_of_input_open_paren, 0, b"derive(", 2);
+    attribute_eof_harness!(flush_attribute_at_end_of_input_text, 2, b"abc", 1);
+
+    // vacuity twin: same set-up as step_ident with a false claim; must FAIL
+    #[kani::proof]
+    #[kani::unwind(12)]
+    fn step_ident_twin_must_fail() {
+        let b = ascii_window();
+        let s: usize = kani::any();
+        let e: usize = kani::any();
+        kani::assume(s <= 1 && e < W);
+        kani::assume(is_word_lexeme(&b, s, e));
+        let c: char = kani::any();
+        let mut t = Tokenizer { src: as_str(&b), out: Vec::with_capacity(2), state: State::Ident(ByteIndex(s), ByteIndex(e)) };
+        let r = t.handle_char(c, ByteIndex(e));
+        assert!(t.out.len() == 0, "EXPECTED-FAIL: some characters flush the pending word");
+        core::mem::forget(t);
+        core::mem::forget(r);
+    }
+}
